@@ -2,7 +2,7 @@
 (* Universe U1: flat leaves a, b and a nested dict n{x,y}; function container f with f.total.          *)
 (* Bound to Python by harness/bind.py: "a" -> s['a'], "n.x" -> s['n']['x'], "f:total" -> f.total         *)
 EXTENDS Integers, Sequences, FiniteSets, TLC, Json
-CONSTANTS Faults, Extras, MaxDepth, EmitIdx
+CONSTANTS Faults, Extras, Transfers, MaxDepth, EmitIdx
 VARIABLES mem, defs, reg, kprev, frozen, ghost, last, depth
 
 LeafSeq == <<"a", "b", "n.x", "n.y">>
@@ -32,7 +32,7 @@ cTaskSpec == [t \in {"F1", "K1"} |->
 cIpOps == {"+", "*"}
 cIpArgs == {3}
 
-INSTANCE Manager WITH Loc <- cLoc, Leaf <- cLeaf, Par <- cPar, ValsOf <- cValsOf, InitMem <- cInitMem,
+INSTANCE Manager WITH KeepLoc <- "b", KeepExpr <- B("+", R("a"), L(1)), Loc <- cLoc, Leaf <- cLeaf, Par <- cPar, ValsOf <- cValsOf, InitMem <- cInitMem,
    Menu <- cMenu, ExprTargets <- cLeaf, TaskSpec <- cTaskSpec, IpOps <- cIpOps, IpArgs <- cIpArgs
 
 ASSUME PrintT(ToJson(<<"INIT", <<cInitMem, [l \in cLeaf |-> NoDef], {}, [t \in DOMAIN cTaskSpec |-> 0], FALSE, {}>>>>))
